@@ -96,6 +96,24 @@ func discoverRelays(p *Prog) []*relaySite {
 		})
 		out = append(out, rs)
 	})
+	// The rules are path rules over these contexts: analyse them with unexported helpers
+	// expanded, so that how a relay's code is split into helpers does not matter. The helpers
+	// the rules anchor on by name stay calls.
+	if p.KeepCalls == nil {
+		p.KeepCalls = map[string]bool{}
+	}
+	for _, t := range relayTypes {
+		for _, pre := range []string{"relayNatConnTo*", "relayServerConnToNatConn*", "recvFromServerConn*", "getQueuedPacket", "putQueuedPacket", "newTransparentConn"} {
+			p.KeepCalls["service."+t+"."+pre] = true
+		}
+	}
+	for _, rs := range out {
+		rs.Recv, rs.Session, rs.Cleanup = p.Inlined(rs.Recv), p.Inlined(rs.Session), p.Inlined(rs.Cleanup)
+		rs.UplinkLit, rs.Uplink, rs.Downlink, rs.Stop = p.Inlined(rs.UplinkLit), p.Inlined(rs.Uplink), p.Inlined(rs.Downlink), p.Inlined(rs.Stop)
+		for i := range rs.Starts {
+			rs.Starts[i] = p.Inlined(rs.Starts[i])
+		}
+	}
 	return out
 }
 
